@@ -343,7 +343,7 @@ func classifyTranscript(c *Ctx, fn *ssa.Function) (kind string, got string, shap
 }
 
 func checkC01(c *Ctx, r *Report) {
-	r.Explain = "Structure of the RMCP+ key schedule: (1) the hash-input transcript of each of the four RAKP computations, extracted per CFG path as a sequence of (field, encoding) items, equals the sequence in IPMI v2.0 §13.28/13.31/13.32 and each returns the whole Sum(nil); (2) the role byte in all of them is level | (name-only ? 0x10 : 0), agreeing with byte 24 of RAKP Message 1; (3) key wiring in the session constructor — which secret keys which HMAC, which algorithm tables map to which hash constructors and truncation lengths, K_n = HMAC_SIK(20 × byte n), AES key = first 16 bytes of K2; (4) order and data flow of the handshake driver. Decides what is hashed, with which key, in which order; the HMAC/AES primitives are trusted."
+	r.Explain = "Structure of the RMCP+ key schedule: (1) the hash-input transcript of each of the four RAKP computations, extracted by engine E2 as the byte stream written into the hash on every path (each byte with the message-field bits it carries, whichever helpers and buffers feed it), equals the sequence in IPMI v2.0 §13.28/13.31/13.32 and each returns the whole Sum(nil); (2) the role byte in all of them is level | (name-only ? 0x10 : 0), agreeing with byte 24 of RAKP Message 1; (3) key wiring in the session constructor — which secret keys which HMAC, which algorithm tables map to which hash constructors and truncation lengths, K_n = HMAC_SIK(20 × byte n), AES key = first 16 bytes of K2; (4) order and data flow of the handshake driver. Decides what is hashed, with which key, in which order; the HMAC/AES primitives are trusted."
 	r.NotDecided = []string{"that HMAC-SHA1/MD5/SHA256 and AES compute their standard functions (Go standard library)", "that a handshake against a real BMC succeeds (needs a peer)", "value-level equality of keys for all inputs"}
 	r.Trusted = []string{"go/types, go/ssa (x/tools v0.29.0)", "crypto/hmac, crypto/sha1, crypto/sha256, crypto/md5, crypto/aes", "transcripts transcribed from IPMI v2.0 §13.20–13.23, 13.28, 13.31, 13.32"}
 
@@ -582,7 +582,7 @@ func checkKeyWiring(c *Ctx, r *Report, tr map[string]*ssa.Function) {
 		// MakeInterface(load of complit{hash: hashGenerator.K(sik)})
 		inner := stripConv(kgen)
 		if f, _, ok := complitFields(inner); ok {
-			if hv, has := f["hash"]; has {
+			if hv, has := f[fAkmHash]; has {
 				if _, key := hashFrom(hv); key == ssa.Value(cs) {
 					okK = true
 				}
@@ -891,7 +891,7 @@ func checkAlgorithmTables(c *Ctx, r *Report) {
 					}
 				default:
 					f := p.objFields(p.objOf(rv))
-					ln, hasLen := f["length"]
+					ln, hasLen := f[fTruncLen]
 					if !isK(p, f["Hash"]) || !hasLen || !p.loadOfField(ln, icv.Params[0], lenField) {
 						okICV, whyICV = false, "with a non-zero ICV length the result is not the SIK-keyed HMAC truncated to that length"
 					}
@@ -948,7 +948,7 @@ func checkAlgorithmTables(c *Ctx, r *Report) {
 				}
 				break
 			}
-			if n, isN := constInt(f["length"]); isN {
+			if n, isN := constInt(f[fTruncLen]); isN {
 				got[1] = fmt.Sprint(n)
 			}
 		}
@@ -1062,7 +1062,7 @@ func checkAlgorithmTables(c *Ctx, r *Report) {
 						}
 						if isL {
 							if b, isB := l.Call.Value.(*ssa.Builtin); isB && b.Name() == "len" && l.Call.Args[0] == ssa.Value(sum.Params[1]) {
-								if strings.HasSuffix(apOf(fld).SelString(), "length") {
+								if strings.HasSuffix(apOf(fld).SelString(), fTruncLen) {
 									ok = true
 								}
 							}
@@ -1093,7 +1093,7 @@ func checkAlgorithmTables(c *Ctx, r *Report) {
 	allInstrs(kf, false, func(in ssa.Instruction) {
 		if x, ok := in.(*ssa.Call); ok && x.Parent() == kf {
 			if f := x.Call.StaticCallee(); f != nil && len(x.Call.Args) == 2 && hashHelperShape(f) == "" {
-				if ld, ok := x.Call.Args[0].(*ssa.UnOp); ok && strings.HasSuffix(apOf(ld.X).SelString(), "hash") {
+				if ld, ok := x.Call.Args[0].(*ssa.UnOp); ok && strings.HasSuffix(apOf(ld.X).SelString(), fAkmHash) {
 					helperCall = x
 				}
 			}
